@@ -143,6 +143,10 @@ func (h *HeapCtx) resolveMods(env *SpecEnv, pkg *packages.Package, items []strin
 			ms.ghost[it] = ghostSort(it)
 			continue
 		}
+		if strings.HasPrefix(it, "gint(\"") && strings.HasSuffix(it, "\")") {
+			ms.get("G_"+sanitize(it[6:len(it)-2]), SArray(SPtr, SInt)).whole = true
+			continue
+		}
 		one := map[string]*Sort{}
 		typeLevel := false
 		if ty, e := h.w.evalType(pkg, it); e == nil {
